@@ -181,10 +181,26 @@ func (en *Engine) effectsStep(f *ssa.Function) bool {
 			n.globals[comp] = true
 		}
 	}
+	gder := globalDerived(f)
+	viaGlobal := func(v ssa.Value, ins ssa.Instruction) {
+		if g, ok := gder[baseOf(v)]; ok {
+			comp := q("G " + g)
+			n.comps[comp] = "Int"
+			n.globals[comp] = true
+			if en.effSites != nil {
+				en.effSites[f] = append(en.effSites[f], ins)
+			}
+			if en.viaGlobal == nil {
+				en.viaGlobal = map[ssa.Instruction]string{}
+			}
+			en.viaGlobal[ins] = comp
+		}
+	}
 	for _, b := range f.Blocks {
 		for _, ins := range b.Instrs {
 			switch i := ins.(type) {
 			case *ssa.Store:
+				viaGlobal(i.Addr, i)
 				if g, ok := i.Addr.(*ssa.Global); ok {
 					comp := q("G " + g.Pkg.Pkg.Name() + "." + g.Name())
 					addc(comp, en.u.sortOf(g.Type().(*types.Pointer).Elem()), "")
@@ -201,6 +217,7 @@ func (en *Engine) effectsStep(f *ssa.Function) bool {
 					en.effSites[f] = append(en.effSites[f], i)
 				}
 			case *ssa.MapUpdate:
+				viaGlobal(i.Map, i)
 				if fresh[i.Map] {
 					continue
 				}
@@ -350,6 +367,11 @@ func (en *Engine) checkEffects(fn *ssa.Function, ct *FuncContract, prop string) 
 		var ws []string
 		for f := range en.effMemo {
 			for _, ins := range en.effSites[f] {
+				if en.viaGlobal[ins] == comp {
+					p := en.fset.Position(ins.Pos())
+					ws = append(ws, fmt.Sprintf("%s (%s:%d, through the package-level variable)", funcKey(f), strings.TrimPrefix(p.Filename, "/repo/"), p.Line))
+					continue
+				}
 				st, ok := ins.(*ssa.Store)
 				if !ok {
 					continue
@@ -413,4 +435,56 @@ func (en *Engine) checkEffects(fn *ssa.Function, ct *FuncContract, prop string) 
 		}
 	}
 	return out
+}
+
+// globalDerived: SSA values read (directly or through fields, elements, slices, phis) from a
+// package-level variable; a write through such a value mutates memory shared by all calls.
+func globalDerived(f *ssa.Function) map[ssa.Value]string {
+	der := map[ssa.Value]string{}
+	for changed := true; changed; {
+		changed = false
+		set := func(v ssa.Value, g string) {
+			if _, ok := der[v]; !ok && g != "" {
+				der[v] = g
+				changed = true
+			}
+		}
+		for _, b := range f.Blocks {
+			for _, ins := range b.Instrs {
+				switch i := ins.(type) {
+				case *ssa.UnOp:
+					if g, ok := i.X.(*ssa.Global); ok {
+						// only reference-like values can be written through
+						switch i.Type().Underlying().(type) {
+						case *types.Pointer, *types.Slice, *types.Map:
+							set(i, g.Pkg.Pkg.Name()+"."+g.Name())
+						}
+					} else if g, ok := der[baseOf(i.X)]; ok {
+						switch i.Type().Underlying().(type) {
+						case *types.Pointer, *types.Slice, *types.Map:
+							set(i, g)
+						}
+					}
+				case *ssa.FieldAddr:
+					set(i, der[i.X])
+				case *ssa.IndexAddr:
+					set(i, der[i.X])
+				case *ssa.Slice:
+					set(i, der[i.X])
+				case *ssa.Lookup:
+					switch i.Type().Underlying().(type) {
+					case *types.Pointer, *types.Slice, *types.Map:
+						set(i, der[i.X])
+					}
+				case *ssa.Phi:
+					for _, e := range i.Edges {
+						set(i, der[e])
+					}
+				case *ssa.ChangeType:
+					set(i, der[i.X])
+				}
+			}
+		}
+	}
+	return der
 }
